@@ -9,11 +9,11 @@ open Fox Fox.Spec.Logger Fox.Model.Logger
 
 /-! ### ties to logger.go (regenerated on every run) -/
 
-/-- The `case` clauses and the `default` of `func level` in logger.go are the table the model computes with
-    (bounds normalised to inclusive-lower / exclusive-upper, levels as slog's numeric constants). -/
-theorem level_facts_tie :
-    Generated.loggerLevelCases = levelTable.map (fun b => (b.lo, b.hi, slogValue b.lvl)) ∧
-    Generated.loggerLevelDefault = slogValue levelDefault := by decide
+/-- evaluate a partition table `[(exclusive upper end, level), …]` (ascending, last end `none` = +inf) -/
+def partLevel : List (Option Int × Int) → Int → Option Int
+  | [], _ => none
+  | (none, l) :: _, _ => some l
+  | (some h, l) :: rest, s => if s < h then some l else partLevel rest s
 
 /-- Shape of the middleware body in logger.go: `next(c)` is called exactly once as a plain statement; both `LogAttrs`
     calls come after it, in the two arms of one if/else; no defer/go/recover; `c.Writer()` is only read
@@ -37,6 +37,35 @@ theorem level_eq (s : Int) :
   by_cases h1 : 200 ≤ s <;> by_cases h2 : s < 300 <;> by_cases h3 : 300 ≤ s <;> by_cases h4 : s < 400 <;>
     by_cases h5 : 400 ≤ s <;> by_cases h6 : s < 500 <;> by_cases h7 : 500 ≤ s <;>
     simp [h1, h2, h3, h4, h5, h6, h7] <;> omega
+
+/-- **tie to logger.go (regenerated on every run).** `func level` of logger.go, evaluated by the extractor as Go
+    evaluates the switch (first matching case, else default) and written as a partition of the integers, is the
+    model's `level` at every integer status. The table is canonical: any reformulation of the switch that computes the
+    same function (case order, redundant bounds, `>` for `>=`) regenerates the same table; a different function does not
+    pass. -/
+theorem level_facts_tie (s : Int) :
+    partLevel Generated.loggerLevelPartition s = some (slogValue (level s)) := by
+  rw [level_eq]
+  simp only [Generated.loggerLevelPartition, partLevel]
+  by_cases h3 : s < 300
+  · by_cases h2 : 200 ≤ s
+    · simp [h3, h2, slogValue]
+    · have : ¬ 300 ≤ s := by omega
+      have : ¬ 400 ≤ s := by omega
+      have : ¬ 500 ≤ s := by omega
+      simp [*, slogValue]
+  · by_cases h4 : s < 400
+    · have : 300 ≤ s := by omega
+      simp [*, slogValue]
+    · by_cases h5 : s < 500
+      · have : 400 ≤ s := by omega
+        have : ¬ (300 ≤ s ∧ s < 400) := by omega
+        simp [*, slogValue]
+      · have : 500 ≤ s := by omega
+        have : ¬ (300 ≤ s ∧ s < 400) := by omega
+        have : ¬ (400 ≤ s ∧ s < 500) := by omega
+        simp [*, slogValue]
+
 
 /-- The level is the one the property demands for every status it speaks about: INFO for 2xx, DEBUG for 3xx, WARN for
     4xx, ERROR for 5xx. -/
